@@ -117,8 +117,12 @@ func (t *ReuseConnTransport) exchangeConnCtx(ctx context.Context, payload []byte
 	}
 	resChan := make(chan res, 1)
 
+	// The goroutine may outlive this call if ctx is done. Give it its own
+	// copy of the payload. The caller will release payload when this call returns.
+	payloadCopy := copyMsg(payload)
 	go func() {
-		resp, err := t.exchangeConn(payload, c)
+		resp, err := t.exchangeConn(payloadCopy, c)
+		pool.ReleaseBuf(payloadCopy)
 		resChan <- res{m: resp, err: err}
 		t.releaseConn(c, err)
 	}()
